@@ -408,3 +408,24 @@ Definition version_swap : adversary := fun a m =>
 Definition example_cfg (kk : bool) (mini maxi minr maxr : Z) : cfg :=
   mk_cfg kk 1 2 3 4 (Stretch (Lit [7])) (Stretch (Lit [7])) (Pub (Priv 2)) (Pub (Priv 1))
          (Lit [109; 97; 99]) 3 mini maxi minr maxr.
+
+(* ---- session identifiers (conndata.go SID): sha512(entropy) before pairing,
+        sha512(hmac(ecdh(remote, local), "mailbox")) afterwards ---- *)
+Inductive sidterm := SidPass (entropy : list Z) | SidKeys (shared : term).
+
+Definition sid_of (local : term) (remote : option term) (entropy : list Z) : sidterm :=
+  match remote with
+  | None => SidPass entropy
+  | Some r => SidKeys (dh local r)
+  end.
+
+(* the handshake pattern chosen from the stored remote key (HandshakePattern) *)
+Definition pattern_kk (remote : option term) : bool :=
+  match remote with Some _ => true | None => false end.
+
+(* an unpaired client (XX initiator, pass phrase only) against a paired server (KK responder) *)
+Definition stranger_result (stranger server : party) : option party :=
+  match write_act stranger [Tme] 1 with
+  | Some (_, m1) => read_act server [Te; Tes; Tss] 1 m1
+  | None => None
+  end.
